@@ -170,6 +170,9 @@ class HttpParser:
         nb_parsed = 0
         while True:
             if not self.__on_firstline:
+                if self._buf:  # the CR and LF ending the first line may arrive in different reads
+                    data = b''.join(self._buf) + data
+                    self._buf = []
                 idx = data.find(b'\r\n')
                 if idx < 0:
                     self._buf.append(data)
